@@ -137,6 +137,24 @@ def run(tier, seed, t0):
         if can is None:
             raise core.Machinery("canary accepted")
         drift = core.validate("Trace_Perm", "JDrift", tf, work, constants={"MaxN": 0})
+        # behaviour-style validation (algorithm level): the offsets of a returned permutation diagram as AdjSwap events
+        beh = {"checked": 0, "accepted": 0}
+        picks = [t for t, v in zip(rows, val["verdicts"]) if v[0] == "ok" and t["kind"] == "perm" and t["how"] == "permutation"
+                 and t["cls"] == "monoidal" and len(t["perm"]) == 4 and len(t["res"]["offs"]) >= 3][:3]
+        for k, t in enumerate(picks):
+            one = os.path.join(work, "beh-%d.ndjson" % k)
+            core.write_ndjson(one, [{"perm": t["perm"], "offs": t["res"]["offs"]}])
+            r = core.behaviour_validate("Trace_PermB", one, work, constants={"MaxN": 4}, invariants=["InvNoExtraEvents"])
+            beh["checked"] += 1
+            beh["accepted"] += int(r["accepted"])
+            if k == 0:   # canary: the last logged offset moved by one must not be explainable
+                bad = os.path.join(work, "beh-canary.ndjson")
+                offs = list(t["res"]["offs"]); offs[-1] = offs[-1] + 1 if offs[-1] < 2 else offs[-1] - 1
+                core.write_ndjson(bad, [{"perm": t["perm"], "offs": offs}])
+                rb = core.behaviour_validate("Trace_PermB", bad, work, constants={"MaxN": 4}, invariants=["InvNoExtraEvents"])
+                beh["canary_rejected"] = not rb["accepted"]
+                if rb["accepted"]:
+                    raise core.Machinery("Trace_PermB accepted a corrupted event log")
         cov = {"states": model["distinct"], "transitions": model["generated"],
                "traces_validated_against_impl": clauses["ok"],
                "samples": [{k: t[k] for k in ("cls", "kind", "how", "perm", "lt", "rt", "exc")} | {"offs": t["res"]["offs"]}
@@ -149,7 +167,8 @@ def run(tier, seed, t0):
                           "refused": sum(1 for t in rows if t["exc"]),
                           "refusals_by_exception": dict(Counter(t["exc"] for t in rows if t["exc"]))},
                "verdicts_by_clause": dict(clauses), "canary": can,
-               "model_drift": dict(Counter(v[0] for v in drift["verdicts"] if v[0] != "ok"))}
+               "model_drift": dict(Counter(v[0] for v in drift["verdicts"] if v[0] != "ok")),
+               "behaviour_style_validation_algorithm_level": beh}
         return core.finish("C10", tier, seed, LEVEL, cov, rejected, t0, ASSUME)
 
 
